@@ -363,6 +363,16 @@ def run(check):
         r_rp.violate('paused without resume registration', cmade, p.ast, 'a new connection can be paused (or registered to be '
                      'paused) here on a path that never registers resumeReceiving for events.resumeReceivingMetrics: it stays '
                      'paused when the others are resumed', path=g.describe_path(pth))
+    # the shared flag must be read after the resume handler is registered: resume is fired from the writer thread as well,
+    # and a resume delivered between "read flag, pause" and "register" would be missed by this connection for good
+    flag_tests = [n for n in g.nodes if n.kind == 'test' and 'metricReceiversPaused' in unparse(n.ast)]
+    for ft in flag_tests:
+      if resume_reg and ft in g.reach([g.entry], removed_nodes=set(resume_reg), normal_only=True):
+        r_rp.violate('paused-flag read before the resume handler is registered', cmade, ft.ast, 'state.metricReceiversPaused is tested '
+                     '(and the connection paused) before resumeReceiving is registered on events.resumeReceivingMetrics: if the writer '
+                     'thread fires the resume in between, this connection misses it and stays paused although the flag is False')
+      elif resume_reg:
+        r_rp.ok('paused-flag read only after the resume handler is registered', cmade.loc(ft.ast))
     # the pause-at-connect must look at the shared flag
     if pause_now:
       flag_edge = lambda a, lab, b: isinstance(lab, tuple) and lab[0] == 'T' and 'metricReceiversPaused' in unparse(lab[1])  # noqa
